@@ -76,3 +76,118 @@ Example C03_example :
      Consult 0 0; Consult 0 1; Consult 0 2; Deliver 0;
      Handler 0; Handler 2; Handler 0]%nat.
 Proof. vm_compute. reflexivity. Qed.
+
+(* ---------- re-entrant, unwinding and concurrent histories ---------- *)
+
+(* Composition law, one level: a log call during which user code (an Append
+   inside append(), the error handler) logs again produces the events of the
+   plain single call (log_record, to which all theorems above apply) with the
+   nested activity spliced in right after the Deliver / Handler event that
+   triggered it — whatever that nested activity is. *)
+Theorem C03_reentrant_composition :
+  forall apps id ia ih lvl attached L,
+    log_record_r apps id ia ih lvl attached L = nest id ia ih (log_record lvl apps attached L).
+Proof. exact log_record_r_nest. Qed.
+Print Assumptions C03_reentrant_composition.
+
+(* ... and for whole call trees: the trace of a re-entrant history is the
+   nesting (weave) of the single-call event lists of its calls. *)
+Theorem C03_reentrant_weave :
+  forall apps nodes c, run apps nodes c = weave apps nodes c.
+Proof. exact run_weave. Qed.
+Print Assumptions C03_reentrant_weave.
+
+(* Erasure: the events observed on a record inside a re-entrant history are
+   exactly those of the non-re-entrant call, so receipt is decided by the
+   appender's own chain and each error reaches the handler exactly once, no
+   matter which appender or handler was running when the call was made
+   (apply to any subtree: nested calls are calls). *)
+Theorem C03_reentrant_erasure :
+  forall apps nodes id bh ba nd L panics kids,
+    ~ In id (concat (map ids kids)) ->
+    events_of id (run apps nodes (Call id bh ba nd L panics kids)) =
+    log_record (node_level nodes nd) apps (node_att nodes nd) L.
+Proof. exact reentrant_erasure. Qed.
+Print Assumptions C03_reentrant_erasure.
+
+Theorem C03_reentrant_receipt :
+  forall apps nodes id bh ba nd L panics kids b,
+    ~ In id (concat (map ids kids)) ->
+    (In (Ev id (Deliver b)) (run apps nodes (Call id bh ba nd L panics kids)) <->
+     (L <=? node_level nodes nd) = true /\ In b (node_att nodes nd) /\
+     delivered (filters (nth b apps dummy_app)) L = true).
+Proof. exact reentrant_receipt. Qed.
+Print Assumptions C03_reentrant_receipt.
+
+Theorem C03_reentrant_errors_reported_once :
+  forall apps nodes id bh ba nd L panics kids,
+    ~ In id (concat (map ids kids)) ->
+    filter is_handler (events_of id (run apps nodes (Call id bh ba nd L panics kids))) =
+    if L <=? node_level nodes nd then
+      map Handler (filter (fun i => delivered (filters (nth i apps dummy_app)) L
+                                    && fails (nth i apps dummy_app)) (node_att nodes nd))
+    else [].
+Proof. exact reentrant_errors_once. Qed.
+Print Assumptions C03_reentrant_errors_reported_once.
+
+(* Unwinding: a top-level call's observable is a prefix of its panic-free trace
+   ending at the panic; without panics it is the whole trace; the next
+   top-level call of the thread is an ordinary call (run_seq is a plain
+   concatenation: nothing is left behind). *)
+Theorem C03_unwind_prefix :
+  forall apps nodes c,
+    (exists r, run apps nodes c = run_top apps nodes c ++ r) /\
+    (forall i, In (Unwind i) (run_top apps nodes c) ->
+       exists p, run_top apps nodes c = p ++ [Unwind i] /\ forall j, ~ In (Unwind j) p) /\
+    (pfree c = true -> run_top apps nodes c = run apps nodes c).
+Proof.
+  intros apps nodes c. split; [apply cut_prefix|split; [apply cut_unwind_last|apply run_top_pfree]].
+Qed.
+Print Assumptions C03_unwind_prefix.
+
+Theorem C03_after_unwind_ordinary :
+  forall apps nodes c cs,
+    run_seq apps nodes (c :: cs) = run_top apps nodes c ++ run_seq apps nodes cs.
+Proof. exact run_seq_cons. Qed.
+Print Assumptions C03_after_unwind_ordinary.
+
+(* Threads: in ANY interleaving of two threads' traces each thread's events are
+   those of its own sequential run (hence C03_errors_reported_once etc. hold per
+   call regardless of what runs concurrently); the harness's rendezvous
+   schedule is one such interleaving. *)
+Theorem C03_concurrent_isolated :
+  forall apps nodes cs1 cs2 m,
+    (forall i, In i (concat (map ids cs1)) -> ~ In i (concat (map ids cs2))) ->
+    merge (run_seq apps nodes cs1) (run_seq apps nodes cs2) m ->
+    filter (mem (concat (map ids cs2))) m = run_seq apps nodes cs2 /\
+    filter (mem (concat (map ids cs1))) m = run_seq apps nodes cs1.
+Proof. exact concurrent_isolated. Qed.
+Print Assumptions C03_concurrent_isolated.
+
+Theorem C03_sched_is_interleaving :
+  forall ev1 ev2, merge ev1 ev2 (sched ev1 ev2).
+Proof. exact sched_merge. Qed.
+Print Assumptions C03_sched_is_interleaving.
+
+(* Non-vacuity: appender 0 (failing) logs record 2 to node 1 = {appender 1}
+   from inside append(); the handler, given appender 0's error on record 1,
+   logs record 3 which fails again at appender 0 (and is reported once). *)
+Example C03_reentrant_example :
+  run [ {| filters := [Scripted Neutral]; fails := true |};
+        {| filters := [Threshold 3]; fails := false |} ]
+      [ (5, [0; 1]%nat); (5, [1]%nat); (5, [0]%nat) ]
+      (Call 1 false 0 0 2 []
+         [Call 2 false 0 1 3 [] []; Call 3 true 0 2 1 [] []])
+  = [Ev 1 (Consult 0 0); Ev 1 (Deliver 0);
+       Ev 2 (Consult 1 0); Ev 2 (Deliver 1);
+     Ev 1 (Consult 1 0); Ev 1 (Deliver 1);
+     Ev 1 (Handler 0);
+       Ev 3 (Consult 0 0); Ev 3 (Deliver 0); Ev 3 (Handler 0)].
+Proof. vm_compute. reflexivity. Qed.
+
+Example C03_unwind_example :
+  run_seq [ {| filters := []; fails := false |}; {| filters := []; fails := false |} ]
+          [ (5, [0; 1]%nat) ]
+          [Call 1 false 0 0 2 [0%nat] []; Call 2 false 0 0 2 [] []]
+  = [Ev 1 (Deliver 0); Unwind 1; Ev 2 (Deliver 0); Ev 2 (Deliver 1)].
+Proof. vm_compute. reflexivity. Qed.
